@@ -57,3 +57,54 @@ Definition sd_graceful (W G : Z) (l : list sd_req) : bool :=
 Definition sd_exit_time (W G : Z) (l : list sd_req) : Z :=
   if sd_graceful W G l then sd_noticed W l else sd_deadline W G.
 Definition sd_exit_code (W G : Z) (l : list sd_req) : Z := if sd_graceful W G l then 0 else 1.
+
+(** * Further signals while the shutdown sequence is under way
+    pkg/server/server.go:Start registers SIGHUP (1), SIGINT (2), SIGTERM (15) and SIGQUIT (3) with signal.Notify on a channel
+    of capacity 1 and never un-registers them; its goroutine receives exactly ONE value from the channel (the signal at
+    instant 0 of this timeline). What the Go runtime does with a signal that arrives while the process lives:
+      registered      -> non-blocking send into the channel: buffered when the buffer is free, dropped otherwise. Nobody
+                         reads the channel a second time, so the sequence under way is not affected;
+      not registered  -> the default disposition; for the signals considered here (SIGKILL, ...) the process is terminated
+                         by the signal at once (wait status "killed by signal k", reported as exit code -k).
+    [extra] = the signals after the first, in order of delivery, instants relative to the first. *)
+Definition sd_registered : list Z := [1; 2; 15; 3].
+Definition sd_handled (k : Z) : bool := existsb (Z.eqb k) sd_registered.
+
+Record sd_sig := mk_sd_sig { sd_sig_at : Z; sd_sig_kind : Z }.
+Definition sd_all_handled (extra : list sd_sig) : bool := forallb (fun s => sd_handled (sd_sig_kind s)) extra.
+
+Inductive sd_life :=
+| SdAlive (buffered : option Z)      (* the channel's buffer *)
+| SdKilled (at_ kind : Z).
+
+Definition sd_deliver (st : sd_life) (s : sd_sig) : sd_life :=
+  match st with
+  | SdKilled _ _ => st
+  | SdAlive buf =>
+    if sd_handled (sd_sig_kind s)
+    then SdAlive (match buf with None => Some (sd_sig_kind s) | Some _ => buf end)
+    else SdKilled (sd_sig_at s) (sd_sig_kind s)
+  end.
+
+Definition sd_life_after (extra : list sd_sig) : sd_life := fold_left sd_deliver extra (SdAlive None).
+
+(* a kill only matters while the process is still there *)
+Definition sd_killed_at (W G : Z) (l : list sd_req) (extra : list sd_sig) : option (Z * Z) :=
+  match sd_life_after extra with
+  | SdKilled t k => if t <? sd_exit_time W G l then Some (t, k) else None
+  | SdAlive _ => None
+  end.
+
+Definition sd_exit_time_x (W G : Z) (l : list sd_req) (extra : list sd_sig) : Z :=
+  match sd_killed_at W G l extra with Some (t, _) => t | None => sd_exit_time W G l end.
+Definition sd_exit_code_x (W G : Z) (l : list sd_req) (extra : list sd_sig) : Z :=
+  match sd_killed_at W G l extra with Some (_, k) => - k | None => sd_exit_code W G l end.
+Definition sd_accepted_x (W G : Z) (l : list sd_req) (extra : list sd_sig) (q : sd_req) : bool :=
+  sd_accepted W q && match sd_killed_at W G l extra with Some (t, _) => sd_arrival q <? t | None => true end.
+Definition sd_completes_x (W G : Z) (l : list sd_req) (extra : list sd_sig) (q : sd_req) : bool :=
+  sd_completes W G q && match sd_killed_at W G l extra with Some (t, _) => sd_finish q <=? t | None => true end.
+
+(* everything the driver observes *)
+Definition sd_outcome (W G : Z) (l : list sd_req) (extra : list sd_sig) : Z * Z * list bool * list bool :=
+  (sd_exit_time_x W G l extra, sd_exit_code_x W G l extra,
+   map (sd_accepted_x W G l extra) l, map (sd_completes_x W G l extra) l).
